@@ -1,6 +1,7 @@
 import Heph.Proofs.DiagAnalyze
 import Heph.Proofs.DiagGroovy
 import Heph.Proofs.DiagScala
+import Heph.Proofs.DiagFilter
 /-! # C14 — compiler diagnostics are attributed to the right programs
 
 A proof over an output GRAMMAR: `render c is` prints a batch of items (`Spec/Diag.lean`) the way
@@ -97,6 +98,36 @@ theorem groovy_stackoverflow_rule (fs : List (List Char)) (out : List Char)
     (analyze .groovyc fs out).crash = (findAll matchGroovy (applyFilters fs out)).isEmpty := by
   simp only [analyze, hc, hso, matcher]
   cases (findAll matchGroovy (applyFilters fs out)).isEmpty <;> simp
+
+/-! ## filters
+
+The code deletes every occurrence of a filter pattern from the output text (`re.sub(p, '', ·)`)
+before the error pattern runs (the crash test reads the unfiltered text). A diagnostic is
+therefore disregarded when the filter deletes its header line; a filter that matches only a
+fragment of a message shortens that message (`Heph.Diag.ex_fragment_filter`). -/
+
+/-- full statement: for every compiler, a literal filter that occurs in the batch output only as
+complete error header lines removes exactly those diagnostics -/
+def filter_drops : Prop :=
+  ∀ (c : Compiler) (p : List Char), p ≠ [] → '\n' ∉ p → ∀ (is : List Item),
+    (∀ i ∈ is, WFItem c i) →
+    (∀ i ∈ is, ∀ x ∈ itemLines c i, (isHdr c p i = true ∧ x = p) ∨ hasInfix p x = false) →
+    analyze c [p] (render c is) = ⟨false, groupByFile (expected c (is.filter fun i => !isHdr c p i))⟩
+
+/-- proved for javac and kotlinc (one diagnostic per line). Missing: groovyc and scalac, whose
+matches span several lines (deleting a header there leaves the detail block behind, which the
+grammar lemmas do not cover yet); patterns that are not literals are covered only by the
+correspondence run. -/
+theorem filter_drops_partial (c : Compiler) (hc : c = .javac ∨ c = .kotlinc) (p : List Char)
+    (hp : p ≠ []) (hnl : '\n' ∉ p) (is : List Item) (hwf : ∀ i ∈ is, WFItem c i)
+    (hsep : ∀ i ∈ is, ∀ x ∈ itemLines c i, (isHdr c p i = true ∧ x = p) ∨ hasInfix p x = false) :
+    analyze c [p] (render c is) = ⟨false, groupByFile (expected c (is.filter fun i => !isHdr c p i))⟩ :=
+  filter_drops_line c hc p hp hnl is hwf hsep
+
+/-- filters that do not occur in the output change nothing (all compilers, any output) -/
+theorem filter_absent_noop (c : Compiler) (fs : List (List Char)) (out : List Char)
+    (h : ∀ p ∈ fs, hasInfix p out = false ∨ p = []) : analyze c fs out = analyze c [] out :=
+  filter_absent c fs out h
 
 /-! ## batch independence -/
 
